@@ -70,6 +70,13 @@ def sorted_rule(rep, c, sfx):
     if fn is None:
         r.lost("pest::state")
         return
+    # the construction sits in pest::state or in a helper of the parser-state module it delegates the failure report to
+    if not any(kind(x) == "Struct" and x.get("path") == "pest::error::ErrorVariant::ParsingError" for x in walk(fn["body"])):
+        hs = [b for b in c.bodies if b.get("body") is not None and b["path"].startswith("pest::parser_state::")
+              and "::tests::" not in b["path"] and not b.get("exp")
+              and any(kind(x) == "Struct" and x.get("path") == "pest::error::ErrorVariant::ParsingError" for x in walk(b["body"]))]
+        if len(hs) == 1:
+            fn = hs[0]
     pe = PathEnum(fn)
     n = 0
     for (ev, out) in exits(pe.paths()):
@@ -108,13 +115,31 @@ def writers(rep, c, sfx):
                  "attempt_pos, pos_attempts, neg_attempts are mutated only in ParserState::track (and "
                  "sorted/deduped in pest::state); track is called only from rule; the error position is attempt_pos")
     track = None
+    cg0 = hirq.CallGraph([c])
+    STATE = "pest::parser_state::state"
+
+    def only_from_state(path, depth=0, seen=()):
+        """is this function reached only from pest::state (directly or through other such helpers)?"""
+        if path == STATE:
+            return True
+        cs = set(p for (p, n) in cg0.callers_of(path))
+        if not cs or depth > 3 or path in seen:
+            return False
+        return all(only_from_state(p, depth + 1, seen + (path,)) for p in cs)
+
+    def is_finalizer(fn):
+        """a helper of pest::state that only puts the recorded attempts in order (sort / dedup) for the report"""
+        hows = [how for fld in FIELDS for (x, how, p) in hirq.mutating_field_accesses(fn["body"], fld, "ParserState")]
+        return bool(hows) and all(how.startswith("method:") and how.split("::")[-1] in ("sort", "dedup", "sort_unstable")
+                                  for how in hows) and only_from_state(fn["path"])
     for fn in c.bodies:
+        fin = fn["path"] == STATE or (fn.get("impl_self") == PS and fn.get("body") is not None and is_finalizer(fn))
         for fld in FIELDS:
             ms = hirq.mutating_field_accesses(fn["body"], fld, "ParserState")
             for (x, how, p) in ms:
                 key = "%s<-%s" % (fld, fn["path"])
                 r.instance(key + ":" + how.split("::")[-1], where(x), how)
-                if fn["path"] == "pest::parser_state::state":
+                if fin:
                     if not (how.startswith("method:") and how.split("::")[-1] in ("sort", "dedup", "sort_unstable")):
                         r.violation(key, where(x), "pest::state mutates %s other than by sort/dedup (%s)" % (fld, how))
                     continue
@@ -134,8 +159,16 @@ def writers(rep, c, sfx):
         r.instance("caller:" + p, where(n))
         if p != PS + "::rule":
             r.violation("caller:" + p, where(n), "attempt tracking is invoked from %s, not only from rule()" % p)
-    st = c.fn("pest::parser_state::state")
-    if st is not None:
+    st0 = c.fn("pest::parser_state::state")
+    # the function that builds the error: pest::state, or a helper reached only from it
+    builders = [st0] if st0 is not None else []
+    for fn in c.bodies:
+        if fn is not st0 and fn.get("body") is not None and fn["path"].startswith("pest::parser_state::") \
+                and "::tests::" not in fn["path"] and only_from_state(fn["path"]) and any(
+                    kind(n) == "Call" and isinstance(callee(n), str) and callee(n).startswith("pest::error::Error::new_from_pos")
+                    for n in walk(fn["body"])):
+            builders.append(fn)
+    for st in builders:
         for n in walk(st["body"]):
             if kind(n) == "Call" and isinstance(callee(n), str) and callee(n).startswith("pest::error::Error::new_from_pos"):
                 posarg = peel(n["args"][1])
